@@ -280,6 +280,14 @@ pub const GC_CORPUS: &[(&str, &str)] = &[
     ("table-copy-init", r#"(module (table $a 1 funcref) (table $b 1 funcref) (table $c 1 funcref) (func $x) (elem $e func $x)
         (func (export "f") (table.copy $a $b (i32.const 0) (i32.const 0) (i32.const 1)) (table.init $c $e (i32.const 0) (i32.const 0) (i32.const 1)) (elem.drop $e)))"#),
     ("block-type-keeps-type", r#"(module (type $bt (func (param i32) (result i32 i32))) (func (export "f") (result i32 i32) (i32.const 1) (block (type $bt) (i32.const 2))))"#),
+    ("side-module-imported-table-segment", r#"(module (import "env" "__indirect_function_table" (table $t 4 funcref)) (import "env" "__table_base" (global $base i32))
+        (import "env" "unused" (func $unused_import))
+        (func $only_in_segment_a) (func $only_in_segment_b (nop))
+        (elem (table $t) (global.get $base) func $only_in_segment_a $only_in_segment_b)
+        (func (export "f")))"#),
+    ("expr-items-global-only-in-segment", r#"(module (import "env" "eg" (global $eg externref)) (import "env" "other" (global $other externref))
+        (table $t (export "t") 2 externref) (elem (table $t) (i32.const 0) externref (global.get $eg))
+        (func (export "f")))"#),
     ("unused-table-with-segment", r#"(module (table $dead 2 funcref) (func $x) (elem (table $dead) (i32.const 0) func $x) (func (export "f")))"#),
     ("unused-memory-with-data-kept", r#"(module (memory $m 1) (data (i32.const 0) "x") (func (export "f")))"#),
     ("global-ref-func-only", r#"(module (func $only_here) (global $g funcref (ref.func $only_here)) (func (export "f") (drop (global.get $g))))"#),
